@@ -25,6 +25,8 @@ CHECKS = {
          "generated-input search with constructed ground truth on both sides of the boundary; held on everything explored"),
  "C15": ("property-based testing (Hypothesis): single tetrahedron pairs (random, lattice corner, factory) and body pairs of all factories (stacked, overlapping, disjoint); own barycentric solve, plane residual, convexity, force direction, swap symmetry",
          "generated-input search with geometric oracles that bound the polygon from outside as the property states; held on everything explored"),
+ "C16": ("metamorphic property-based testing (Hypothesis): body pairs at general poses; relations action-reaction, argument swap, common rigid motion, repeated and interleaved calls on the same objects, tree vs brute-force broad phase",
+         "generated-input search with metamorphic oracles (no reference model needed); two open known findings traced to unstable contact polygons"),
  "C17": ("property-based testing (Hypothesis): factory parameters incl. class boundaries; determinant volumes with exact rational sign for slivers, qhull volume, point-in-exactly-one-tetrahedron partition test, analytic signed distance for vertices/potentials, helper recomputation",
          "generated-input search with independent geometric oracles; held on everything explored"),
  "C18": ("exhaustive enumeration of the {-1,0,1} lattice (thorough: all 551880 configurations) + Hypothesis (lattice {-2..2}, scaled, near-degenerate, duplicates) against an exact rational (Fraction) brute-force oracle; both solvers",
